@@ -1,6 +1,8 @@
 // Evaluation of one numerical case against the library, case construction from entropy, replay-file I/O.
 #include "specs.hpp"
 #include "cmirror.hpp"
+#include <cfenv>
+#include <cerrno>
 #include <masa.h>
 using namespace MASA;
 namespace MASA { void masa_verif_reset(); }
@@ -115,7 +117,12 @@ template <class Scalar> static std::vector<Outcome> run_t(const Spec &s, const N
     for (auto &m : c_mirror(ptd, s.nargs, prop == "C07" ? 1 : (prop == "C09" || prop.empty() ? 2 : 0), s.name == "euler_chem_1d" ? keq_d : nullptr, &n)) { Outcome o; o.label = prefix + "C-interface: " + m.cname + (m.idx ? "[" + std::to_string(m.idx) + "]" : ""); o.lib = m.c; o.ref = Q((long double)m.cxx); o.err = 1e300; o.status = 1;
       o.note = "the C entry point returns a value different from " + m.cxx_id + " of the C++ double API on the same handle at the same point"; out.push_back(o); }
     mirror_compared() += n; };
-  evaluate_all(); mirror();
+  // Ambient process state the library must neither consult nor depend on: in one case of eight errno holds a stale EDOM and the sticky
+  // floating-point status flags (divide-by-zero, invalid, overflow) are raised before the evaluators are called, as an application's own
+  // arithmetic leaves them. Values are required to be the same (the flags trap nothing).
+  const bool poisoned = case_hash(c) % 8 == 1;
+  auto poison = [&]() { if (!poisoned) return; errno = EDOM; std::feraiseexcept(FE_DIVBYZERO | FE_INVALID | FE_OVERFLOW); };
+  poison(); evaluate_all(); mirror();
   // Second phase on the SAME handle: every parameter is changed through masa_set_param (x 1.0625; admissibility is preserved because all
   // amplitudes and offsets scale alike) and every evaluator is called again at the SAME point. A value cached per object or per process
   // (last point, last time, first Gamma seen) and not refreshed by masa_set_param shows up here, reproducibly from this one case.
@@ -127,7 +134,7 @@ template <class Scalar> static std::vector<Outcome> run_t(const Spec &s, const N
   if (c.only.empty() && s.name != "sod_1d") {
     { Quiet q; for (auto &kv : held) masa_set_param<Scalar>(kv.first, (Scalar)(kv.second * 1.0625L)); }
     auto held2 = read_params<Scalar>(names); p.clear(); for (auto &kv : held2) p[kv.first] = Q(kv.second);
-    prefix = "after set_param: "; evaluate_all(); mirror(); prefix.clear(); }
+    prefix = "after set_param: "; poison(); evaluate_all(); mirror(); prefix.clear(); }
   verify_bystander("end of case");
   if (s.relations && c.only.empty() && prop != "C07") { try { s.relations(c, p, out, K); } catch (std::exception &ex) { Outcome o; o.label = "relations"; o.status = 1; o.err = 1e300; o.note = ex.what(); out.push_back(o); } }
   return out;
